@@ -26,7 +26,7 @@ const c15Mime = "application/x-tinode-webrtc"
 
 func c15Gen(rt *rapid.T) wProg {
 	p := wProg{}
-	p.Cfg = wConfig{Users: 3, NoPush: true, Calls: !gPct(rt, 8), CallTimeout: gPick(rt, []int{3, 3, 8}, "timeout")}
+	p.Cfg = wConfig{Users: 3, NoPush: true, Calls: !gPct(rt, 8), CallTimeout: gPick(rt, []int{3, 3, 8}, "timeout"), Root: gPct(rt, 25)}
 	p.Sess = append([]int(nil), gPick(rt, [][]int{{0, 1, 2}, {0, 0, 1, 1, 2}, {0, 1, 1, 2}, {0, 0, 1, 2}}, "layout")...)
 	first := map[int]int{}
 	for s, u := range p.Sess {
@@ -75,8 +75,8 @@ func c15Gen(rt *rapid.T) wProg {
 		switch x := gInt(rt, 0, 99, "opk"); {
 		case x < 12:
 			t := topicFor(s)
-			if gPct(rt, 10) {
-				t = "g0"
+			if gPct(rt, 16) {
+				t = gPick(rt, []string{"g0", "g0", "sys", "me"}, "notp2p")
 			}
 			p.Ops = append(p.Ops, invite(s, t))
 		case x < 62:
@@ -157,6 +157,22 @@ func c15Gen(rt *rapid.T) wProg {
 			p.Ops = append(p.Ops, wOp{K: gPick(rt, []string{"leave", "disc"}, "how"), S: gPick(rt, []int{a, b}, "who"), T: ta})
 		}
 		maybeNoise(e)
+	}
+	if p.Cfg.Root && gPct(rt, 70) {
+		// the root session (user 0) places a call on behalf of user 1 to user 2; user 2 answers and ends it
+		rs, b := first[0], first[2]
+		p.Ops = append(p.Ops, wOp{K: "sub", S: rs, T: "p2", Obo: 2}, wOp{K: "sub", S: b, T: "p1"})
+		inv := invite(rs, "p2")
+		inv.Obo = 2
+		p.Ops = append(p.Ops, inv)
+		if gPct(rt, 60) {
+			p.Ops = append(p.Ops, wOp{K: "note", S: b, T: "p1", A: "call", B: "ringing", M: 1})
+		}
+		p.Ops = append(p.Ops, wOp{K: "note", S: b, T: "p1", A: "call", B: "accept", M: 1})
+		if gPct(rt, 70) {
+			p.Ops = append(p.Ops, wOp{K: "note", S: b, T: "p1", A: "call", B: gPick(rt, []string{"offer", "ice-candidate"}, "xev2"), M: 1, H: map[string]any{"sdp": "r"}})
+		}
+		p.Ops = append(p.Ops, wOp{K: "note", S: b, T: "p1", A: "call", B: "hang-up", M: 1})
 	}
 	return p
 }
